@@ -169,6 +169,85 @@ def h_full_state(sym):
           7, 0, '<BhhhhhhhhhIhhh', vals)
 
 
+def _ref_compress(q):
+    """Firmware quatcompress(): normalise, index of the largest |component| (first one wins ties), sign of every other
+    component relative to the largest (so that the dropped one is reconstructed as positive), 9-bit magnitudes."""
+    n = math.sqrt(sum(x * x for x in q))
+    qn = [x / n for x in q]
+    big = 0
+    for i in range(1, 4):
+        if abs(qn[i]) > abs(qn[big]):
+            big = i
+    neg = qn[big] < 0
+    comp = big
+    for i in range(4):
+        if i != big:
+            negbit = 1 if ((qn[i] < 0) != neg) else 0
+            mag = int(511 * (abs(qn[i]) * math.sqrt(2)) + 0.5)
+            comp = (comp << 10) | (negbit << 9) | mag
+    return comp
+
+
+QUATS = [[0, 0, 0, 1], [0, 0, 0, -1], [0.5, 0.5, 0.5, 0.5], [0.1, -0.2, 0.3, -0.9273618495495703], [-0.8, 0.2, -0.5, 0.26457513110645906],
+         [0.0871557, 0, 0, -0.9961947], [0, 0.7071068, 0, -0.7071068], [0.3, -0.9, 0.1, 0.3], [-0.6, -0.6, 0.2, 0.4898979485566356],
+         [2.0, 0, 0, -2.0], [0.01, 0.02, -0.9997, 0.01]]
+
+
+def h_full_state_quat(sym):
+    """The compressed orientation word of send_full_state_setpoint against an independent port of the firmware's quatcompress
+    (solver-chosen among quaternions incl. negative largest components, ties and unnormalised ones); rates symbolic."""
+    q = QUATS[sym.choice('quat', len(QUATS))]
+    rr = sym.int('rollrate_milli', -3000, 3000)
+    cf = mkcf(10)
+    rate = rr / 1000 if not sym.symbolic else None
+    # rates as exact thousandths so that the expected field is the integer itself
+    rates = [1.5, -2.25, 0.125]
+    exp_r = [int(x * 1000) for x in rates]
+    vals = (6, 100, -200, 300, 0, 0, 0, 0, 0, 0, _ref_compress(q), exp_r[0], exp_r[1], exp_r[2])
+    check(sym, cf, lambda: cf.commander.send_full_state_setpoint([0.1, -0.2, 0.3], [0, 0, 0], [0, 0, 0], list(q), *rates),
+          7, 0, '<BhhhhhhhhhIhhh', vals)
+
+
+def h_two_sessions(sym):
+    """The protocol-version dependent layouts follow the version negotiated NOW: the same Commander / HighLevelCommander objects
+    are used across two sessions with different versions (both symbolic), on both sides of every legacy/new switch."""
+    v1, v2 = sym.int('ver1', 0, 20), sym.int('ver2', 0, 20)
+    a, b, c, d = F(sym, 'a', 'b', 'c', 'd')
+    which = sym.B['which']
+    cf = mkcf(v1)
+
+    def emit():
+        if which == 'hover':
+            cf.commander.send_hover_setpoint(a, b, c, d)
+        elif which == 'zdistance':
+            cf.commander.send_zdistance_setpoint(a, b, c, d)
+        elif which == 'velocity_world':
+            cf.commander.send_velocity_world_setpoint(a, b, c, d)
+        else:
+            cf.high_level_commander.go_to(a, b, c, d, 1.5, False, True, 3)
+
+    def expected(ver):
+        if which == 'hover':
+            return 7, '<Bffff', ((5, a, b, -c, d) if ver <= 8 else (10, a, b, c, d))
+        if which == 'zdistance':
+            return 7, '<Bffff', ((2, a, b, -c, d) if ver <= 8 else (9, a, b, c, d))
+        if which == 'velocity_world':
+            return 7, '<Bffff', ((1, a, b, c, -d) if ver <= 8 else (8, a, b, c, d))
+        if ver < 8:
+            return 8, '<BBBfffff', (4, 3, 0, a, b, c, d, 1.5)
+        return 8, '<BBBBfffff', (12, 3, 0, 1, a, b, c, d, 1.5)
+    try:
+        emit()
+    except REFUSALS:
+        return
+    del cf.sent[:]
+    cf.platform._v = v2                      # a new session negotiated another protocol version
+    port, fmt, vals = expected(v2)
+    check(sym, cf, emit, port, 0, fmt, vals)
+    if bool(v1 <= 8) != bool(v2 <= 8):
+        sym.goal('crossed-switch')
+
+
 # ---------------------------------------------------------------- high level commander (port 8)
 def h_hl_small(sym):
     gm = sym.int('gm', -3, 260)
@@ -361,6 +440,10 @@ _H = [
              tiers=('quick', 'thorough') if i in (0, 4, 8, 11) else ('thorough',)) for i in range(12)] + [
     Harness(f'hl_{k}', h_hl_small, quick=dict(which=k), goals=('sent', 'refused')) for k in ('group_mask', 'stop', 'define', 'start')
 ] + [
+    Harness('full_state[quaternion]', h_full_state_quat, goals=('sent',), symbolic=False,
+            note='quaternion chosen by the solver among concrete ones (numpy code); reference: independent port of quatcompress'),
+] + [Harness(f'two_sessions[{k}]', h_two_sessions, quick=dict(which=k), goals=('sent', 'crossed-switch'), timeout=(600, 1800), per_path=300.0)
+     for k in ('hover', 'zdistance', 'velocity_world', 'go_to')] + [
     Harness('takeoff_land', h_takeoff_land, goals=('sent',)),
     Harness('go_to', h_goto, goals=('sent',), timeout=(600, 1800)),
     Harness('spiral', h_spiral, goals=('sent',), timeout=(600, 1800)),
